@@ -105,7 +105,7 @@ def value_matches(kind, text, raw, fmt=None):
     if kind == "Number":
         return _num_eq(text, raw, fmt)
     if kind == "BLOB":
-        return True  # definitions carry no payload
+        return text in (None, "")  # definitions carry no payload
     t = None if text in (None, "") else str(text)
     r = None if raw in (None, "") else str(raw).strip()
     return t == (r if r != "" else None)
